@@ -63,6 +63,11 @@ let eval (op : string) (args : sx list) : sx list =
   | "transcribe_bytes", [p] -> sx_of_out (fun b -> [sx_of_bytes b]) (transcribe_bytes (bytes_of_sx p))
   | "match", [s; q] -> sx_of_out (fun l -> [sx_of_segs l]) (match_segments (bytes_of_sx s) (bytes_of_sx q))
   | "search", [s; q] -> [A "ok"; sx_of_segs (search_segments (bytes_of_sx s) (bytes_of_sx q))]
+  | "cache_open", [hsz; L htab; L itab; rsum; dsum; f] ->
+    let pairs l = List.map (function L [a; b] -> (bytes_of_sx a, bytes_of_sx b) | _ -> failwith "pair expected") l in
+    (match open_entry_tab (z_of_sx hsz) (pairs htab) (pairs itab) (bytes_of_sx rsum) (bytes_of_sx dsum) (bytes_of_sx f) with
+     | Some d -> [A "ok"; sx_of_bytes d]
+     | None -> [A "none"])
   | _ -> [A "unknown-op"]
 
 let () =
